@@ -76,7 +76,9 @@ typedef struct PartVec { unsigned long n; } PartVec;
 struct ComputableObject { unsigned int Status; };
 static inline void ComputableObject_setStatus(struct ComputableObject *o, unsigned int s) { o->Status = s; REACH("setStatus"); }
 struct TwoParticleGF g_gel, g_oel;
-struct TwoParticleGFPart g_gpart, g_opart; struct TwoParticleGFPart *g_gpart_p, *g_opart_p;
+struct TwoParticleGFPart g_part; struct TwoParticleGFPart *g_part_p;      /* the part object is never inspected: broadcasts are counted in scalars */
+int g_cur_ghost_part;                 /* the part selected last is part gq of the ghost element */
+unsigned long g_nr_bcasts, g_r_bcasts;     /* broadcasts of the two term lists of the ghost part */
 unsigned long g_g, g_gq; IC4 g_X;
 typedef struct GF2Ptr { struct TwoParticleGF *p; } GF2Ptr;
 typedef struct NPair { IC4 first; GF2Ptr second; } NPair;
@@ -84,8 +86,10 @@ typedef struct NMap { unsigned long n; NPair cur; } NMap;
 typedef struct NMapIt { NMap *m; unsigned long idx; } NMapIt;
 static inline unsigned long NMap_size(NMap *m) { return m->n; }
 IC4 nondet_ic4(void);
+unsigned long g_cur_elem;             /* number of the element under the iterator */
 static inline void nmap_load(NMap *m, unsigned long idx)
 {
+  g_cur_elem = idx;
   if (idx == g_g) { m->cur.first = g_X; m->cur.second.p = &g_gel; }
   else { m->cur.first = nondet_ic4(); __CPROVER_assume(!KEQ(m->cur.first, g_X)); /* ASSUMED (std::map): keys are pairwise different */
          m->cur.second.p = &g_oel; g_oel.Status = nondet_uint(); g_oel.parts.n = nondet_ulong(); __CPROVER_assume(g_oel.parts.n <= NMAX); }
@@ -102,7 +106,8 @@ static inline unsigned long PartVec_size(PartVec *v) { return v->n; }
 static inline struct TwoParticleGFPart **PartVec_at(PartVec *v, unsigned long p)
 {
   __CPROVER_assert(p < v->n, "vector<TwoParticleGFPart*>::operator[]: index < size()");
-  return (v == &g_gel.parts && p == g_gq) ? &g_gpart_p : &g_opart_p;
+  g_cur_ghost_part = (v == &g_gel.parts && p == g_gq) ? 1 : 0;
+  return &g_part_p;
 }
 /* ---- the tables: std::map<IndexCombination4, std::vector<ComplexType>>, ghost key g_X; a vector = its identity */
 typedef struct FreqVec { long id; } FreqVec;
@@ -132,7 +137,6 @@ static inline CVecOut TwoParticleGF_compute_fn(struct TwoParticleGF *e, _Bool cl
 /* ---- MONITORS boost::mpi::broadcast(comm, value, root) */
 int g_sender; int g_have_sender;      /* the root used for the ghost element (recorded at its first broadcast) */
 unsigned long g_fd_bcasts;            /* broadcasts of the frequency table while the ghost element is distributed */
-unsigned long g_cur_elem;             /* number of the element being distributed */
 static inline void bcast_check(Comm *c, int root)
 {
   __CPROVER_assert(c->id == g_world_id, "C13: the results are distributed over the whole communicator");
@@ -142,8 +146,8 @@ static inline void bcast_check(Comm *c, int root)
     __CPROVER_assert(root == g_sender, "C13: all data of one element come from the same root");
   }
 }
-static inline void broadcast_nr(Comm *c, TermListNR *t, int root) { bcast_check(c, root); t->n_bcast++; t->root = root; t->comm_id = c->id; }
-static inline void broadcast_r(Comm *c, TermListR *t, int root) { bcast_check(c, root); t->n_bcast++; t->root = root; t->comm_id = c->id; }
+static inline void broadcast_nr(Comm *c, TermListNR *t, int root) { (void)t; bcast_check(c, root); if (g_cur_ghost_part) g_nr_bcasts++; }
+static inline void broadcast_r(Comm *c, TermListR *t, int root) { (void)t; bcast_check(c, root); if (g_cur_ghost_part) g_r_bcasts++; }
 static inline void broadcast_v(Comm *c, CVecOut *v, int root)
 { bcast_check(c, root); if (c->rank_ != root) v->id = nondet_ulong(); if (g_cur_elem == g_g) g_fd_bcasts++; }
 #define broadcast(c_, v_, r_) _Generic((v_), TermListNR *: broadcast_nr, TermListR *: broadcast_r, CVecOut *: broadcast_v)((c_), (v_), (r_))
@@ -154,31 +158,29 @@ static inline void broadcast_v(Comm *c, CVecOut *v, int root)
 int g_pcol, g_ecol; _Bool g_calc;      /* PCOL(r), ECOL(g), ECOL(g) == PCOL(r)  (spec values, fixed in the requires) */
 unsigned int g_old_status;
 #define HAS_GHOST (g_g < NTE->n)
-#define DONE_PARTS(k) /* state of the ghost part after k parts of the ghost element have been distributed */ \
-   (g_gpart.NonResonantTerms.n_bcast == ((k) > g_gq ? 1UL : 0UL) && g_gpart.ResonantTerms.n_bcast == ((k) > g_gq ? 1UL : 0UL) && g_fd_bcasts == (k) && \
-    ((k) > g_gq ==> (g_gpart.NonResonantTerms.root == g_sender && g_gpart.ResonantTerms.root == g_sender && \
-                    g_gpart.NonResonantTerms.comm_id == g_world_id && g_gpart.ResonantTerms.comm_id == g_world_id)) && \
+#define DONE_PARTS(k) /* after k parts of the ghost element have been distributed */ \
+   (g_nr_bcasts == ((k) > g_gq ? 1UL : 0UL) && g_r_bcasts == ((k) > g_gq ? 1UL : 0UL) && g_fd_bcasts == (k) && \
     ((k) > 0 ==> (g_have_sender && 0 <= g_sender && g_sender < comm->size_)))
 //@function Pomerol::TwoParticleGFContainer::computeAll_split(bool, std::vector<boost::tuples::tuple<std::complex<double>, std::complex<double>, std::complex<double>, boost::tuples::null_type, boost::tuples::null_type, boost::tuples::null_type, boost::tuples::null_type, boost::tuples::null_type, boost::tuples::null_type, boost::tuples::null_type>, std::allocator<boost::tuples::tuple<std::complex<double>, std::complex<double>, std::complex<double>, boost::tuples::null_type, boost::tuples::null_type, boost::tuples::null_type, boost::tuples::null_type, boost::tuples::null_type, boost::tuples::null_type, boost::tuples::null_type> > > const&, boost::mpi::communicator const&) as TPGFC_computeAll_split
 //@contract
 __CPROVER_requires(__CPROVER_is_fresh(self, sizeof(*self)) && __CPROVER_is_fresh(freqs, sizeof(*freqs)) && __CPROVER_is_fresh(comm, sizeof(*comm)))
 __CPROVER_requires(NTE->n <= NMAX && 1 <= comm->size_ && comm->size_ <= (int)NMAX && 0 <= comm->rank_ && comm->rank_ < comm->size_)
 __CPROVER_requires(comm->id == g_world_id && g_split_id != g_world_id && g_splits == 0 && g_clear == clearTerms && g_freqs_id == freqs->id)
-__CPROVER_requires(g_g <= NMAX && g_gq < NMAX && g_gel.parts.n <= NMAX && g_gpart_p == &g_gpart && g_opart_p == &g_opart)
-__CPROVER_requires(g_comp_hits == 0 && g_fd_bcasts == 0 && g_have_sender == 0 && g_gpart.NonResonantTerms.n_bcast == 0 && g_gpart.ResonantTerms.n_bcast == 0)
+__CPROVER_requires(g_g <= NMAX && g_gq < NMAX && g_gel.parts.n <= NMAX && g_part_p == &g_part)
+__CPROVER_requires(g_comp_hits == 0 && g_fd_bcasts == 0 && g_have_sender == 0 && g_nr_bcasts == 0 && g_r_bcasts == 0)
 /* ghost keys of the three int maps, and the spec colours */
 __CPROVER_requires(g_next_intmap == 0 && g_key_pc == comm->rank_ && g_key_ec == (int)g_g && g_key_cr == g_ecol)
 __CPROVER_requires(HAS_GHOST ==> g_ecol == (int)((g_g * SPEC_NCOLORS(comm->size_, NTE->n)) / NTE->n))
 __CPROVER_requires(g_pcol == (int)D_DIV(D_MUL(1.0, (double)(unsigned long)comm->rank_), D_DIV(D_MUL(1.0, (double)comm->size_), (double)SPEC_NCOLORS(comm->size_, NTE->n))))
 __CPROVER_requires(g_calc == (g_ecol == g_pcol) && g_old_status == g_gel.Status)
-__CPROVER_assigns(self->NonTrivialElements.cur, g_splits, g_split_color, g_next_intmap, g_gel.Status, g_oel, g_gpart, g_opart, g_comp_hits, g_comp_seq, g_gres,
+__CPROVER_assigns(self->NonTrivialElements.cur, g_splits, g_split_color, g_next_intmap, g_gel.Status, g_oel, g_cur_ghost_part, g_nr_bcasts, g_r_bcasts, g_comp_hits, g_comp_seq, g_gres,
                   g_sender, g_have_sender, g_fd_bcasts, g_cur_elem)
 /* P1 */
 __CPROVER_ensures(g_splits == 1 && g_split_color == g_pcol)
 __CPROVER_ensures(g_comp_hits == ((HAS_GHOST && g_calc) ? 1UL : 0UL))
 /* P2 */
 __CPROVER_ensures(HAS_GHOST ==> DONE_PARTS(g_gel.parts.n))
-__CPROVER_ensures(!HAS_GHOST ==> (g_gpart.NonResonantTerms.n_bcast == 0 && g_gpart.ResonantTerms.n_bcast == 0 && g_fd_bcasts == 0))
+__CPROVER_ensures(!HAS_GHOST ==> (g_nr_bcasts == 0 && g_r_bcasts == 0 && g_fd_bcasts == 0))
 /* P3 */
 __CPROVER_ensures(__CPROVER_return_value.gpresent == ((HAS_GHOST && g_gel.parts.n > 0) ? 1 : 0))
 __CPROVER_ensures((HAS_GHOST && g_gel.parts.n > 0 && comm->rank_ == g_sender && g_calc) ==> __CPROVER_return_value.g.id == g_gres)
@@ -202,14 +204,14 @@ __CPROVER_assigns(i)
 __CPROVER_loop_invariant(i <= ncomponents)
 __CPROVER_decreases(ncomponents - i)
 //@loop 4
-__CPROVER_assigns(iter.idx, comp, self->NonTrivialElements.cur, storage, proc_colors.scratch, elem_colors.scratch, g_gel.Status, g_oel, g_comp_hits, g_comp_seq, g_gres)
+__CPROVER_assigns(iter.idx, comp, self->NonTrivialElements.cur, storage, proc_colors.scratch, elem_colors.scratch, g_gel.Status, g_oel, g_comp_hits, g_comp_seq, g_gres, g_cur_elem)
 __CPROVER_loop_invariant(iter.m == NTE && iter.idx <= NTE->n && comp >= 0 && (unsigned long)comp == iter.idx)
 __CPROVER_loop_invariant(iter.idx < NTE->n ==> (iter.idx == g_g ? (KEQ(NTE->cur.first, g_X) && NTE->cur.second.p == &g_gel) : (!KEQ(NTE->cur.first, g_X) && NTE->cur.second.p == &g_oel)))
 __CPROVER_loop_invariant(g_comp_hits == ((iter.idx > g_g && g_calc) ? 1UL : 0UL))
 __CPROVER_loop_invariant((iter.idx > g_g && g_calc) ? (storage.gpresent == 1 && storage.g.id == g_gres && g_gel.Status == Computed) : (storage.gpresent == 0 && g_gel.Status == g_old_status))
 __CPROVER_decreases(NTE->n - iter.idx)
 //@loop 5
-__CPROVER_assigns(iter.idx, comp, self->NonTrivialElements.cur, storage, out, elem_colors.scratch, color_roots, g_gel.Status, g_oel, g_gpart, g_opart,
+__CPROVER_assigns(iter.idx, comp, self->NonTrivialElements.cur, storage, out, elem_colors.scratch, color_roots, g_gel.Status, g_oel, g_cur_ghost_part, g_nr_bcasts, g_r_bcasts,
                   g_sender, g_have_sender, g_fd_bcasts, g_cur_elem)
 __CPROVER_loop_invariant(iter.m == NTE && iter.idx <= NTE->n && comp >= 0 && (unsigned long)comp == iter.idx && color_roots.gkey == g_ecol)
 __CPROVER_loop_invariant(iter.idx < NTE->n ==> (iter.idx == g_g ? (KEQ(NTE->cur.first, g_X) && NTE->cur.second.p == &g_gel) : (!KEQ(NTE->cur.first, g_X) && NTE->cur.second.p == &g_oel)))
@@ -221,7 +223,7 @@ __CPROVER_loop_invariant((g_calc || (iter.idx > g_g && g_gel.parts.n > 0 && comm
 __CPROVER_loop_invariant(g_calc ? (storage.gpresent == 1 && storage.g.id == g_gres) : (iter.idx <= g_g ==> storage.gpresent == 0))
 __CPROVER_decreases(NTE->n - iter.idx)
 //@loop 6
-__CPROVER_assigns(p, storage, out, g_gel.Status, g_oel.Status, g_gpart, g_opart, g_sender, g_have_sender, g_fd_bcasts)
+__CPROVER_assigns(p, storage, out, g_gel.Status, g_oel.Status, g_cur_ghost_part, g_nr_bcasts, g_r_bcasts, g_sender, g_have_sender, g_fd_bcasts)
 __CPROVER_loop_invariant(p <= chi->parts.n && (chi == &g_gel || chi == &g_oel) && (chi == &g_gel) == (iter.idx == g_g) && g_cur_elem == iter.idx)
 __CPROVER_loop_invariant(chi == &g_gel ==> (DONE_PARTS(p) && out.gpresent == (p > 0 ? 1 : 0) && (p > 0 ==> sender == g_sender) &&
                          ((p > 0 && comm->rank_ == g_sender && g_calc) ==> out.g.id == g_gres) &&
@@ -229,20 +231,17 @@ __CPROVER_loop_invariant(chi == &g_gel ==> (DONE_PARTS(p) && out.gpresent == (p 
 __CPROVER_loop_invariant(chi == &g_gel ==> (0 <= sender && sender < comm->size_))
 __CPROVER_loop_invariant(chi != &g_gel ==> (out.gpresent == __CPROVER_loop_entry(out.gpresent) && out.g.id == __CPROVER_loop_entry(out.g.id) && g_gel.Status == __CPROVER_loop_entry(g_gel.Status) &&
                          g_fd_bcasts == __CPROVER_loop_entry(g_fd_bcasts) && g_have_sender == __CPROVER_loop_entry(g_have_sender) && g_sender == __CPROVER_loop_entry(g_sender) &&
-                         g_gpart.NonResonantTerms.n_bcast == __CPROVER_loop_entry(g_gpart.NonResonantTerms.n_bcast) && g_gpart.ResonantTerms.n_bcast == __CPROVER_loop_entry(g_gpart.ResonantTerms.n_bcast) &&
-                         g_gpart.NonResonantTerms.root == __CPROVER_loop_entry(g_gpart.NonResonantTerms.root) && g_gpart.ResonantTerms.root == __CPROVER_loop_entry(g_gpart.ResonantTerms.root) &&
-                         g_gpart.NonResonantTerms.comm_id == __CPROVER_loop_entry(g_gpart.NonResonantTerms.comm_id) && g_gpart.ResonantTerms.comm_id == __CPROVER_loop_entry(g_gpart.ResonantTerms.comm_id)))
+                         g_nr_bcasts == __CPROVER_loop_entry(g_nr_bcasts) && g_r_bcasts == __CPROVER_loop_entry(g_r_bcasts)))
 __CPROVER_loop_invariant(g_calc ? (storage.gpresent == 1 && storage.g.id == g_gres) : ((iter.idx < g_g || (iter.idx == g_g && p == 0)) ==> storage.gpresent == 0))
 __CPROVER_decreases(chi->parts.n - p)
 //@end
-//@harness h_TPGFC_computeAll_split enforce=TPGFC_computeAll_split props=C13 reach=5 timeout=600
+//@harness h_TPGFC_computeAll_split enforce=TPGFC_computeAll_split props=C13 reach=5 timeout=400
 void h_TPGFC_computeAll_split(void)
 {
   struct TwoParticleGFContainer *c; _Bool clear; FreqVec *f; Comm *m;
   g_g = nondet_ulong(); g_gq = nondet_ulong(); g_X = nondet_ic4();
   g_world_id = nondet_long(); g_split_id = nondet_long(); g_splits = 0; g_clear = clear; g_freqs_id = nondet_long();
-  g_gpart_p = &g_gpart; g_opart_p = &g_opart; g_comp_hits = 0; g_fd_bcasts = 0; g_have_sender = 0;
-  g_gpart.NonResonantTerms.n_bcast = 0; g_gpart.ResonantTerms.n_bcast = 0; g_next_intmap = 0;
+  g_part_p = &g_part; g_comp_hits = 0; g_fd_bcasts = 0; g_have_sender = 0; g_nr_bcasts = 0; g_r_bcasts = 0; g_next_intmap = 0;
   g_key_pc = nondet_int(); g_key_ec = nondet_int(); g_key_cr = nondet_int(); g_pcol = nondet_int(); g_ecol = nondet_int(); g_calc = nondet_bool();
   g_gel.Status = nondet_uint(); g_gel.parts.n = nondet_ulong(); g_old_status = g_gel.Status;
   OutMap r = TPGFC_computeAll_split(c, clear, f, m);
